@@ -256,6 +256,42 @@ pub fn c06(opts: &Opts, out: &mut Out) {
                     run("wrong-value", vw, base_v.clone(), pw, bl.clone(), bl.clone(), out, &mut rng);
                 }
             }
+            // compensating violations at two positions (each individually wrong, equal and opposite in the sum)
+            if m >= 2 {
+                let v: Vec<u64> = (0..m).map(|i| ((rng.next_u64() & max) / 2).max(1).min(max) + (i as u64 % 2).min(max - ((rng.next_u64() & max) / 2).max(1).min(max))).map(|x| x & max).collect();
+                let v: Vec<u64> = v.iter().map(|x| if n == 1 { *x & 1 } else { *x }).collect();
+                let none_p: Vec<Option<u64>> = vec![None; m];
+                let bl: Vec<Vec<Scalar>> = (0..m).map(|_| sc(&mut rng, t)).collect();
+                for (i, j) in [(0usize, 1usize), (m - 1, 0)] {
+                    if i == j {
+                        continue;
+                    }
+                    // openings listed in another order than the commitments
+                    let mut vs = v.clone();
+                    vs.swap(i, j);
+                    let mut bs = bl.clone();
+                    bs.swap(i, j);
+                    if vs != v || bs != bl {
+                        classes.insert((n, m, i, "swapped-openings".to_string()));
+                        prover_case(out, &format!("swapped-openings@{},{}", i, j), n, t, &vs, &v, &none_p, &bs, &bl, &mut rng);
+                    }
+                    // value moved from one opening to another
+                    if v[i] < max && v[j] > 0 {
+                        let mut vm = v.clone();
+                        vm[i] += 1;
+                        vm[j] -= 1;
+                        classes.insert((n, m, i, "value-moved".to_string()));
+                        prover_case(out, &format!("value-moved@{},{}", i, j), n, t, &vm, &v, &none_p, &bl, &bl, &mut rng);
+                    }
+                    // mask offset moved from one opening to another
+                    let mut bm = bl.clone();
+                    let delta = Scalar::from(77u8);
+                    bm[i][t - 1] += delta;
+                    bm[j][t - 1] -= delta;
+                    classes.insert((n, m, i, "mask-moved".to_string()));
+                    prover_case(out, &format!("mask-moved@{},{}", i, j), n, t, &v, &v, &none_p, &bm, &bl, &mut rng);
+                }
+            }
             // structural violations
             let base_v: Vec<u64> = (0..m).map(|_| rng.next_u64() & max).collect();
             let none_p: Vec<Option<u64>> = vec![None; m];
